@@ -75,7 +75,8 @@ def max_bits(d):
     return sum(d["types"][t]["enc"]["w"] for t in d["torder"]) + 1
 
 
-ROUTES = [("obj",), ("xml", "prefix", False, False), ("xml", "default", True, False), ("xml", "none", False, True)]
+ROUTES = [("obj",), ("xml", "prefix", False, False), ("xml", "default", True, False, "rev"), ("xml", "none", False, True),
+          ("xml", "prefix", True, True, "rev")]
 
 
 def special_defns():
